@@ -448,13 +448,21 @@ impl<'a> Parser<'a> {
     }
 
     fn convert_fstring_parts(&self, parts: &[LexFStringPart], fstring_span: Span) -> Vec<FStringPart> {
+        // Position of the current part inside the f-string token (after the opening `f"`). Sub-expressions are lexed
+        // on their own, so their tokens are shifted to this position: spans key the type checker's expression-type
+        // map, and sub-expressions of different f-strings must not share spans.
+        let mut offset = fstring_span.start + 2;
         parts
             .iter()
             .map(|p| match p {
-                LexFStringPart::Literal(s) => FStringPart::Literal(s.clone()),
+                LexFStringPart::Literal(s) => {
+                    offset += s.len();
+                    FStringPart::Literal(s.clone())
+                }
                 LexFStringPart::Expr(s) => {
                     // Parse simple field access chains like "user.name" or "obj.field.sub"
-                    let expr = self.parse_fstring_expr(s);
+                    let expr = self.parse_fstring_expr(s, offset + 1);
+                    offset += s.len() + 2;
                     // Use the f-string's span so errors point to the f-string, not line 1
                     FStringPart::Expr(Spanned::new(expr, fstring_span))
                 }
@@ -462,12 +470,15 @@ impl<'a> Parser<'a> {
             .collect()
     }
 
-    fn parse_fstring_expr(&self, s: &str) -> Expr {
+    fn parse_fstring_expr(&self, s: &str, base: usize) -> Expr {
         // Properly parse the expression string by lexing and parsing it
         use crate::lexer;
 
         // Try to lex and parse the expression
         if let Ok(mut tokens) = lexer::lex(s) {
+            for token in &mut tokens {
+                token.span = Span::new(token.span.start + base, token.span.end + base);
+            }
             // Ensure we have an EOF token at the end for the parser
             if tokens.is_empty() || !matches!(tokens.last().map(|t| &t.kind), Some(TokenKind::Eof)) {
                 tokens.push(Token {
